@@ -1,17 +1,6 @@
 \* trace validation against the contract GraphAbs, shape library, up to 16 live nodes
 CONSTANTS
-  Pkgs <- L_shape_Pkgs
-  PkgKey <- L_shape_PkgKey
-  PkgImports <- L_shape_PkgImports
-  PkgExports <- L_shape_PkgExports
-  KindTab <- L_shape_Kinds
-  ImportNames <- L_shape_ImportNames
-  ExportNames <- L_shape_ExportNames
-  DefNames <- L_shape_DefNames
-  ValidNames <- L_shape_ValidNames
-  DefClass <- L_shape_DefClass
-  DefDeps <- L_shape_DefDeps
-  NameInfo <- L_shape_NameInfo
+  LibName = "shape"
   NodeIds = {1, 2, 3, 4, 5, 6, 7, 8, 9, 10, 11, 12, 13, 14, 15, 16}
   OpKinds = {"register", "unregister", "define_type", "import", "instantiate", "alias", "set_arg", "unset_arg", "export", "unexport", "set_name", "remove"}
 SPECIFICATION TraceSpec
